@@ -20,7 +20,6 @@ import (
 	"github.com/glowlabs-org/gca-backend/glow"
 	"github.com/glowlabs-org/gca-backend/server"
 
-	"verifh/ev"
 	"verifh/pool"
 )
 
@@ -305,7 +304,7 @@ func init() {
 		return c12Run(j), nil
 	})
 	checks["C12"] = func(tier string) int {
-		run := ev.NewRun("C12", tier, "exploration")
+		run := newRun("C12", tier, "exploration")
 		// the shutdown scenarios run meanwhile in a real-time child process
 		type shut struct {
 			out []byte
